@@ -24,7 +24,7 @@ import (
 const rtPath = "verif.sim/simrt"
 const syncPath = "verif.sim/simrt/simsync"
 
-type stats struct{ gos, selects, singleSelects, chanops, mapranges, chanranges, syncImports, unhandled, cancels, closes, dense int }
+type stats struct{ gos, selects, singleSelects, chanops, mapranges, chanranges, syncImports, unhandled, cancels, closes, dense, resets int }
 
 var st stats
 
@@ -69,7 +69,7 @@ func main() {
 			}
 		}
 	}
-	fmt.Printf("instr: go=%d select=%d single_select=%d chanop=%d maprange=%d chanrange=%d syncimports=%d cancels=%d closes=%d dense=%d unhandled=%d\n", st.gos, st.selects, st.singleSelects, st.chanops, st.mapranges, st.chanranges, st.syncImports, st.cancels, st.closes, st.dense, st.unhandled)
+	fmt.Printf("instr: go=%d select=%d single_select=%d chanop=%d maprange=%d chanrange=%d syncimports=%d cancels=%d closes=%d dense=%d resets=%d unhandled=%d\n", st.gos, st.selects, st.singleSelects, st.chanops, st.mapranges, st.chanranges, st.syncImports, st.cancels, st.closes, st.dense, st.resets, st.unhandled)
 }
 
 func rel(dir, name string) string {
@@ -150,7 +150,117 @@ func (in *inst) typeOf(e ast.Expr) types.Type {
 	return nil
 }
 
+// rule 8: package-level containers (channels, slices, maps, and unexported struct or pointer-to-struct variables built from
+// a composite literal) are put back to their initial value at the start of every run: a free list, cache or scratch buffer
+// at package level otherwise carries objects from one simulated run into the next one of the same worker process, and a
+// failure that involves it would neither replay from its seed nor count as deterministic. Variables that an init function
+// of the package mentions (registries filled at start-up), embedded files and initialisers that call anything but make/new
+// are left alone.
+func (in *inst) resets() []string {
+	inInit := map[types.Object]bool{}
+	for _, f := range in.pkg.Syntax {
+		for _, d := range f.Decls {
+			fd, ok := d.(*ast.FuncDecl)
+			if !ok || fd.Recv != nil || fd.Name.Name != "init" || fd.Body == nil {
+				continue
+			}
+			ast.Inspect(fd.Body, func(n ast.Node) bool {
+				if id, ok := n.(*ast.Ident); ok {
+					if o := in.pkg.TypesInfo.Uses[id]; o != nil {
+						inInit[o] = true
+					}
+				}
+				return true
+			})
+		}
+	}
+	simpleInit := func(e ast.Expr) bool {
+		ok := true
+		ast.Inspect(e, func(n ast.Node) bool {
+			switch x := n.(type) {
+			case *ast.FuncLit:
+				ok = false
+			case *ast.CallExpr:
+				id, isID := x.Fun.(*ast.Ident)
+				_, conv := in.pkg.TypesInfo.Types[x.Fun]
+				if isID && (id.Name == "make" || id.Name == "new") {
+					return true
+				}
+				if conv && in.pkg.TypesInfo.Types[x.Fun].IsType() {
+					return true
+				}
+				ok = false
+			}
+			return ok
+		})
+		return ok
+	}
+	var out []string
+	for _, d := range in.file.Decls {
+		gd, ok := d.(*ast.GenDecl)
+		if !ok || gd.Tok != token.VAR {
+			continue
+		}
+		raw := func(cg *ast.CommentGroup) string {
+			var sb strings.Builder
+			if cg != nil {
+				for _, c := range cg.List {
+					sb.WriteString(c.Text + "\n")
+				}
+			}
+			return sb.String()
+		}
+		if strings.Contains(raw(gd.Doc), "go:") {
+			continue
+		}
+		for _, sp := range gd.Specs {
+			vs := sp.(*ast.ValueSpec)
+			if strings.Contains(raw(vs.Doc), "go:") {
+				continue
+			}
+			if len(vs.Values) != 0 && len(vs.Values) != len(vs.Names) {
+				continue
+			}
+			for i, name := range vs.Names {
+				if name.Name == "_" {
+					continue
+				}
+				obj, _ := in.pkg.TypesInfo.Defs[name].(*types.Var)
+				if obj == nil || inInit[obj] {
+					continue
+				}
+				container := false
+				switch t := obj.Type().Underlying().(type) {
+				case *types.Chan, *types.Slice, *types.Map:
+					container = true
+				case *types.Struct:
+					container = !name.IsExported() && len(vs.Values) > 0
+				case *types.Pointer:
+					_, isStruct := t.Elem().Underlying().(*types.Struct)
+					container = isStruct && !name.IsExported() && len(vs.Values) > 0
+				}
+				if !container {
+					continue
+				}
+				if len(vs.Values) == 0 {
+					if _, isStruct := obj.Type().Underlying().(*types.Struct); isStruct {
+						continue
+					}
+					out = append(out, name.Name+" = nil")
+					continue
+				}
+				if !simpleInit(vs.Values[i]) {
+					continue
+				}
+				out = append(out, name.Name+" = "+in.str(vs.Values[i]))
+			}
+		}
+	}
+	return out
+}
+
 func (in *inst) run() {
+	resets := in.resets()
 	// drop comments except those before the package clause (build constraints)
 	var keep []*ast.CommentGroup
 	for _, cg := range in.file.Comments {
@@ -256,6 +366,15 @@ func (in *inst) run() {
 		}
 		return true
 	})
+	if len(resets) > 0 {
+		in.needRT = true
+		st.resets += len(resets)
+		f, err := parser.ParseFile(token.NewFileSet(), "", "package p\nfunc init() {\nsimrt.RegisterReset(func() {\n"+strings.Join(resets, "\n")+"\n})\n}", 0)
+		if err != nil {
+			panic(fmt.Sprintf("generated code does not parse: %v", err))
+		}
+		in.file.Decls = append(in.file.Decls, f.Decls[0])
+	}
 	if in.needRT {
 		astutil.AddNamedImport(in.fset, in.file, "simrt", rtPath)
 	}
